@@ -1,11 +1,12 @@
 """C06 What the model says is what the printed text says (re-parse + structural digest after syntax-preserving histories)."""
+import importlib
 from .. import valuestate, common, gen, ops, walker, storemodel
 from autobean_refactor import models
 
 CASES = {'quick': 4000, 'thorough': 60000}
 SMALL_BLOCKS = 4      # runner: every 4th case keeps its stores in 2..10-token blocks
 GATES = {
-    'quick': {'cases_in_small_blocks': 50, 'evaluations': 7000, 'steps_with_visible_change': 6000, 'op_kinds_seen': 60, 'crlf_documents': 300, 'kind:header-strings': 250},
+    'quick': {'cases_in_small_blocks': 50, 'evaluations': 7000, 'steps_with_visible_change': 6000, 'op_kinds_seen': 60, 'crlf_documents': 300, 'kind:header-strings': 250, 'kind:constructed-custom': 400, 'constructed_custom_values_parenthesised': 20},
     'thorough': {'evaluations': 200000, 'op_kinds_seen': 70},
 }
 RULE = ('case = one accepted generated document and a history of 1..12 (thorough ..60) *syntax-preserving* catalog operations (the '
@@ -18,6 +19,7 @@ RULE = ('case = one accepted generated document and a history of 1..12 (thorough
         'string and mapping views, raw node properties, custom getters; all of them read once before the first edit so that whatever the '
         'library caches is cached; decimals compared as numbers, nodes by digest; attribution, spacing and indent_by excluded). Non-trivial = the step '
         'changed a visible token; distinct = hash(text, op-log prefix).')
+RULE += (" Also (round 13): at the end of 30 % of the histories a custom directive is constructed (from_value or from_children, 2..4 values, signed multi-term expressions among them) and inserted among the entries; the constructors promise the disambiguating parentheses, so no juxtaposition skip applies to it.")
 RULE += (" Also (round 8): header-string sequences (2..4 assignments of None / '' / text to payee and narration of one transaction, compared after each).")
 ASSUMPTIONS = ['comment lines are compared as a sequence (adjacent comments of one indentation class re-lex as one token)',
                'indent_by, zero-width tokens and comment attribution are not part of the digest']
@@ -179,6 +181,38 @@ def history(col, text, f, hseed, lf, count):
             v = compare(col, f, text, log, {'lf': lf})
             if v:
                 return (f'{v[0]}:header-strings', f'after {log[-1]}: {v[1]}', v[2]), log
+    # a custom directive constructed from values and attached (round 13): the constructors promise to parenthesise a value that
+    # starts with a sign when it follows a number (docs/special/numbers.md), so what the model holds must be what the text says
+    if r.random() < 0.3:
+        from .. import builder
+        import datetime
+        vals = [builder.CUSTOMV(r) for _ in range(r.choice([2, 3, 4]))]
+        try:
+            if r.random() < 0.5:
+                c = models.Custom.from_value(datetime.date(2001, 2, 3), 'built', vals)
+                how = 'from_value'
+            else:
+                ctm = importlib.import_module('autobean_refactor.models.custom')
+                c = models.Custom.from_children(models.Date.from_value(datetime.date(2001, 2, 3)), models.EscapedString.from_value('built'),
+                                                [ctm._unsimplify_value(x) for x in vals])
+                how = 'from_children'
+            pos = r.randint(0, len(f.raw_directives_with_comments))
+            f.raw_directives_with_comments.insert(pos, c)
+        except Exception as e:
+            if count:
+                col.skip(f'constructed custom step raised {type(e).__name__}; history ends')
+            return None, log
+        log.append(f'$.raw_directives_with_comments.insert({pos}, Custom.{how}(<{len(vals)} values>)) -> {common.pr(c)!r}')
+        if count:
+            col.count('kind:constructed-custom')
+            col.ev()
+            col.nontrivial(text, tuple(log))
+            rv = list(c.raw_values)
+            if any(isinstance(a, models.NumberExpr) and common.pr(b)[:1] == '(' for a, b in zip(rv, rv[1:])):
+                col.count('constructed_custom_values_parenthesised')
+        v = compare(col, f, text, log, {'lf': lf})
+        if v:
+            return (f'{v[0]}:constructed-custom', f'after {log[-1]}: {v[1]}', v[2]), log
     return None, log
 
 
